@@ -320,8 +320,16 @@ def r_gauss_sib(ctx: RuleCtx, col: Collector):
         f = c.method("_prepare")
         if f is None or not any(isinstance(x, ast.Call) and norm(x.func).endswith("get_D") for x in ast.walk(f.node)):
             continue
-        scaled = any(isinstance(x, ast.AugAssign) and isinstance(x.op, ast.Mult) and "element_size[2]" in norm(x.value)
-                     for x in ast.walk(f.node))
+        scaled = "no"
+        for x in ast.walk(f.node):
+            if isinstance(x, ast.AugAssign) and isinstance(x.op, ast.Mult) and "element_size[2]" in norm(x.value):
+                g = None
+                pp = getattr(x, "_parent", None)
+                while pp is not None and pp is not f.node:
+                    if isinstance(pp, ast.If):
+                        g = norm(pp.test).replace("domain.dim", "dim")
+                    pp = getattr(pp, "_parent", None)
+                scaled = f"under '{g}'" if g else "unconditionally"
         users[c.name] = scaled
     if len(set(users.values())) <= 1:
         col.ok("assembly", loops[0][1].rel, line_of(loops[0][2]), "2-D thickness scaling of the constitutive matrix", str(users))
